@@ -30,6 +30,18 @@ META = {
  "C19_14": ("get_operation_count depthwise: hand-written output extent uses in // stride for 'same'", "(Q)DepthwiseConv2D, padding same, stride > 1, size not a multiple of the stride"),
  "C20_13": ("AutoQKHyperModel.quantize_model: layer_indexes check moved into the first loop", "layer_indexes given, Activation in the limit, an Activation layer outside the indexes"),
  "C20_14": ("ForgivingFactor.delta floored at -1", "trial / reference above rate^(100/delta_n)"),
+ "C13_13": ("QGRU.get_config serialises recurrent_activation from self.activation", "any QGRU whose gate activation differs from its candidate activation"),
+ "C13_14": ("QDepthwiseConv2D.get_config serialises bias_quantizer only if use_bias", "use_bias=False together with a bias_quantizer (also QDepthwiseConv2DBatchnorm)"),
+ "C14_13": ("model_save_quantized_weights: has_sign = q_name == 'quantized_po2' (no longer sticky)", "layer whose last po2 quantizer is quantized_relu_po2 after a quantized_po2 one (default QBatchNormalization)"),
+ "C14_14": ("add_bn_fusing_weights reads the previous layer's bias from the exported (hardware) form", "power-of-two bias quantizer on a conv fused with a QBatchNormalization"),
+ "C15_13": ("QDepthwiseConv2DBatchnorm.call: smart_cond branches choosing inv swapped", "folding_mode='batch_stats_folding' at inference"),
+ "C15_14": ("model_quantize: shared fallback helper looks up kernel_quantizer for depthwise layers", "enable_bn_folding, DepthwiseConv2D + BN, config naming only QDepthwiseConv2D"),
+ "C16_13": ("AndGate.__init__: integer bits max(input, weights) instead of the data operand's", "0/1 gate operand times a fixed-point operand with int_bits 0"),
+ "C16_14": ("QuantizedBits.convert_qkeras_quantizer: is_signed = 1 if keep_negative is True else 0", "keep_negative=1 written as an int, unsigned partner operand"),
+ "C17_13": ("merge Add.__init__: integer-bit maximum became elif after the fraction-bit if", "two-input Add of different types where one operand sets both maxima"),
+ "C17_14": ("Po2FixedPointAdder passes the unconverted po2 quantizer to FixedPointAdder", "po2 + fixed-point adder whose smallest power is finer than the fixed-point step"),
+ "C18_13": ("qgraph.GraphUpdateEdge only writes edges whose quantizer is still None", "dense / conv with a plain function activation feeding another dense / conv"),
+ "C18_14": ("analyze_accumulator: sign guards on the input range removed", "range on one side of zero, bias opposing the extreme, true extreme just above a power of two"),
 }
 META.update(json.load(open("/tmp/seed7/meta_extra.json")) if os.path.exists("/tmp/seed7/meta_extra.json") else {})
 for name, (what, needs) in sorted(META.items()):
